@@ -104,7 +104,7 @@ func CheckC05(run *Run) {
 					if desc == nil {
 						continue
 					}
-					vals, labels := codecValues(vg, desc, nRandom)
+					vals, labels := codecValues(vg, desc, nRandom, r)
 					seen := map[string]bool{}
 					for k, v := range vals {
 						w := WireHex(v)
